@@ -38,7 +38,10 @@
     The repaired `createTable` (and the model, `checkRelList`) rejects such a call with
     "relation component %d specified more than once" (`relTwice`); § 4 shows the rejection of
     both histories.  The creation theorem still asks that the call names no relation component
-    twice (left as it was; every accepted call now satisfies it, `createTable_ok_nodup`).
+    twice (left as it was; every accepted call satisfies it: `createTable_ok_nodup` when the table
+    is created, and — since the repair of defect D26, `archetype.getTableSlowPath`, which until
+    then ACCEPTED such a list when a table matched — `getTable_some_nodup` when it exists:
+    `World.findOrCreateTableAdd_ok_nodup`, `Ark/Props/C10Rel.lean` § 4).
   * handles inside the pool slice — `World.Reset` keeps the invalidated handles (generation
     `MaxUint32`) in the memory behind the re-sliced pool (defect D14 repaired), and `Alive` is an
     unchecked read of that memory.  `PLink` (the index ↔ pool link inside `TInv`) therefore does
@@ -102,14 +105,14 @@ theorem newEntity_assigns_targets : type_of% @opNewEntity_rel_spec := @opNewEnti
 /-- an accepted `NewEntity(ids…, rels…)` named only zero or alive targets (whatever their IDs) -/
 theorem newEntity_names_valid_targets : type_of% @opNewEntity_rel_valid := @opNewEntity_rel_valid
 
-/-- **rejection** (typed paths): a call naming a dead target is refused with `deadTarget`, the
-    world unchanged -/
-theorem newEntity_dead_target_rejected (run : ProbeRunner) (p : Path) (hp : p ≠ .unsafe_)
+/-- **rejection** (every path, since the repair of the `Unsafe` API): a call naming a dead target
+    is refused with `deadTarget`, the world unchanged -/
+theorem newEntity_dead_target_rejected (run : ProbeRunner) (p : Path)
     (ids : List Comp) (vals : List (Comp × Val)) (rels : List RelID) (w : World)
     (hv : ∀ (r : RelID), r ∈ rels → w.isRelComp r.comp = true ∧ (Mask.ofList ids).get r.comp = true)
     (hd : ∃ (r : RelID), r ∈ rels ∧ r.target.isZero = false ∧ w.alive r.target = false) :
     opNewEntity run p ids vals rels w = .panic .deadTarget w := by
-  simp only [opNewEntity, bind, M.bind, preCheck_deadTarget p hp ids w rels hv hd]
+  simp only [opNewEntity, bind, M.bind, preCheck_deadTarget p ids w rels hv hd]
 
 /-- on every path: a call naming a dead target (on relation components among `ids`) is not
     accepted -/
@@ -138,8 +141,8 @@ theorem add_assigns_targets : type_of% @opAdd_rel_spec := @opAdd_rel_spec
 /-- an accepted `Add(e, ids…, rels…)` named only zero or alive targets (whatever their IDs) -/
 theorem add_names_valid_targets : type_of% @opAdd_rel_valid := @opAdd_rel_valid
 
-/-- **rejection** (typed paths): `Add` naming a dead target is refused with `deadTarget`, the
-    world unchanged -/
+/-- **rejection** (every path, since the repair of the `Unsafe` API): `Add` naming a dead target
+    is refused with `deadTarget`, the world unchanged -/
 theorem add_dead_target_rejected : type_of% @opAdd_deadTarget := @opAdd_deadTarget
 
 /-- **assignment** (`setRelations e rels` / `SetRelations` on any path, `e` live and having the
@@ -156,8 +159,9 @@ theorem opSetRelations_names_valid_targets : type_of% @opSetRelations_valid := @
 /-- a valid `setRelations` (targets zero or alive) never fails -/
 theorem setRelations_never_fails : type_of% @setRelationsCore_total := @setRelationsCore_total
 
-/-- **rejection** (typed paths): `SetRelations` naming a dead target is refused with `deadTarget`,
-    the world unchanged -/
+/-- **rejection** (every path, since the repair of the `Unsafe` API): `SetRelations` naming a
+    dead target is refused with `deadTarget`, the world unchanged (membership in the mapper's
+    components is asked of the relations on the `MapN` path only) -/
 theorem setRelations_dead_target_rejected : type_of% @opSetRelations_deadTarget :=
   @opSetRelations_deadTarget
 
@@ -359,13 +363,17 @@ example :
     panicOf (opAdd noRun .typed p2 [0] [] [⟨0, ⟨7, 0⟩⟩] d7) = some .deadTarget := by
   refine ⟨?_, ?_, ?_⟩ <;> decide +kernel
 
-/-- a dead target is rejected on every path, the world unchanged on the typed paths -/
+/-- a dead target is rejected on every path, the world unchanged — through `Unsafe` too, since
+    the repair of its relation validation (before: one more archetype) -/
 example :
     panicOf (opNewEntity noRun .typed [0, 1] [(1, 5)] [⟨0, p1⟩] d9) = some .deadTarget ∧
     panicOf (opNewEntity noRun .map1 [0, 1] [(1, 5)] [⟨0, p1⟩] d9) = some .deadTarget ∧
     panicOf (opNewEntity noRun .unsafe_ [0, 1] [(1, 5)] [⟨0, p1⟩] d9) = some .deadTarget ∧
-    summary (opNewEntity noRun .typed [0, 1] [(1, 5)] [⟨0, p1⟩] d9).state = summary d9 := by
-  refine ⟨?_, ?_, ?_, ?_⟩ <;> decide +kernel
+    summary (opNewEntity noRun .typed [0, 1] [(1, 5)] [⟨0, p1⟩] d9).state = summary d9 ∧
+    summary (opNewEntity noRun .unsafe_ [0, 1] [(1, 5)] [⟨0, p1⟩] d9).state = summary d9 ∧
+    (opNewEntity noRun .unsafe_ [0, 1] [(1, 5)] [⟨0, p1⟩] d9).state.archetypes.length =
+      d9.archetypes.length := by
+  refine ⟨?_, ?_, ?_, ?_, ?_, ?_⟩ <;> decide +kernel
 
 /-! ## 3. the hypotheses of the rejection theorem are satisfiable -/
 
